@@ -22,7 +22,7 @@ type c14Size struct {
 
 var c14SizeNs = []int{0, 1, 2, 7, 8, 9, 15, 16, 17, 19, 20, 21, 31, 32, 33, 49, 50, 51, 63, 64, 65, 99, 100, 101, 127, 128, 129, 255, 256, 257, 511, 512, 513, 1000}
 
-const c14SizeFamilies = 19
+const c14SizeFamilies = 20
 
 func rep(s string, n int, sep string) string {
 	if n <= 0 {
@@ -87,8 +87,14 @@ func c14SizeCase(f, v, n int) (tpls map[string]string, extra map[string]interfac
 		}
 		b := "item_" + strings.Repeat("x", l-5)
 		extra[b], extra[b+"s"], extra[b+"_id"] = "one", "two", "three"
-		tpls["t"] = "{{ " + b + " }}{{ " + b + "s }}{{ " + b + "_id }}{{ " + b + "s|upper }}{% set " + b + "x = 4 %}{{ " + b + "x }}{{ " + b + " }}"
-		want = "onetwothreeTWO4one"
+		tpls["t"] = "{{ " + b + " }}{{ " + b + "s }}{{ " + b + "_id }}{{ " + b + "s|upper }}{% set " + b + "x = 4 %}{{ " + b + "x }}{{ " + b + " }}" +
+			// the same long names as loop variables, macro and parameter names, block names, import aliases, hash keys
+			"|{% for " + b + "_l in [7, 8] %}{{ " + b + "_l }}{% endfor %}{% for kk, " + b + "_v in {'q': 5} %}{{ kk }}{{ " + b + "_v }}{% endfor %}" +
+			"{% macro " + b + "_m(" + b + "_p) %}<{{ " + b + "_p }}>{% endmacro %}{{ _self." + b + "_m('z') }}{% block " + b + "_b %}blk{% endblock %}" +
+			"{% import 'szlib' as " + b + "_i %}{{ " + b + "_i.f('w') }}{{ {'" + b + "': 1, '" + b + "s': 2}|keys|length }}{% include 'szpart' with {'" + b + "': 'inc'} %}"
+		tpls["szlib"] = "{% macro f(a) %}f({{ a }}){% endmacro %}"
+		tpls["szpart"] = "[{{ " + b + " }}]"
+		want = "onetwothreeTWO4one|78q5<z>blkf(w)2[inc]"
 	case 7: // many statements
 		var sb strings.Builder
 		for i := 0; i <= n; i++ {
@@ -164,6 +170,30 @@ func c14SizeCase(f, v, n int) (tpls map[string]string, extra map[string]interfac
 	case 17: // long output from a short template (buffer size classes)
 		tpls["t"] = "{% for i in range(0, " + strconv.Itoa(n) + ") %}ab{% endfor %}|{{ 'q' }}"
 		want = strings.Repeat("ab", n+1) + "|q"
+	case 19: // list filters over a literal of n+2 items (items are zero-padded strings, written in descending order)
+		items := make([]string, 0, n+2)
+		for i := n + 1; i >= 0; i-- {
+			items = append(items, fmt.Sprintf("'k%04d'", i))
+		}
+		lit := "[" + strings.Join(items, ", ") + "]"
+		asc := make([]string, 0, n+2)
+		for i := 0; i <= n+1; i++ {
+			asc = append(asc, fmt.Sprintf("k%04d", i))
+		}
+		switch v % 4 {
+		case 0:
+			tpls["t"] = "{{ " + lit + "|sort|join(',') }}"
+			want = strings.Join(asc, ",")
+		case 1:
+			tpls["t"] = "{{ " + lit + "|reverse|join(',') }}|{{ " + lit + "|sort|first }}{{ " + lit + "|sort|last }}"
+			want = strings.Join(asc, ",") + "|k0000" + asc[len(asc)-1]
+		case 2:
+			tpls["t"] = "{{ " + lit + "|slice(1, " + strconv.Itoa(n+1) + ")|length }}|{{ " + lit + "|slice(1, 1)|first }}{{ " + lit + "|merge(['zz'])|last }}{{ " + lit + "|merge(" + lit + ")|length }}"
+			want = strconv.Itoa(n+1) + "|" + asc[len(asc)-2] + "zz" + strconv.Itoa(2*(n+2))
+		default:
+			tpls["t"] = "{{ " + lit + "|join('')|length }}|{{ " + lit + "|length }}{{ " + lit + "|first }}{{ " + lit + "|last }}{{ 'k0000' in " + lit + " ? 'y' : 'n' }}"
+			want = strconv.Itoa(5*(n+2)) + "|" + strconv.Itoa(n+2) + asc[len(asc)-1] + "k0000y"
+		}
 	case 18: // long number literals and long comments inside expressions' neighbourhood
 		tpls["t"] = "{{ 2." + strings.Repeat("0", n) + "0 > 1 ? 'g' : 'l' }}{# " + strings.Repeat("c", n) + " #}{{ 'q' }}"
 		want = "gq"
@@ -255,8 +285,8 @@ func init() {
 		// developer aid: what every family evaluates to on the current tree
 		p := &Program{Ctx: defaultCtx(newR(1))}
 		for f := 0; f < c14SizeFamilies; f++ {
-			for _, n := range []int{1, 33} {
-				tpls, extra, want := c14SizeCase(f, 0, n)
+			for _, n := range []int{1, 33, 34, 35} {
+				tpls, extra, want := c14SizeCase(f, n, n) // the variant follows n here, so that every variant is shown
 				got, _ := c14SizeRender(p, tpls, extra)
 				ok := want == "\x00same" || got.Out == want
 				fmt.Printf("family %2d n=%-3d %-5s match=%v out=%q err=%q\n", f, n, got.Class, ok, tail(got.Out, 60), tail(got.Err, 80))
